@@ -603,6 +603,8 @@ type gen struct {
 	funks    map[t.QQID]funk
 
 	numPublicCoroutines map[t.QID]uint32
+
+	verif verifState // See range_verif.go
 }
 
 func (g *gen) generate() ([]byte, error) {
@@ -847,6 +849,7 @@ func (g *gen) genHeader(b *buffer) error {
 func (g *gen) genImpl(b *buffer) error {
 	module := "!defined(WUFFS_CONFIG__MODULES) || defined(WUFFS_CONFIG__MODULE__" + g.PKGNAME + ")"
 	b.printf("#if %s\n\n", module)
+	g.verifWritePreamble(b)
 
 	b.writes("// ---------------- Status Codes Implementations\n\n")
 
